@@ -156,6 +156,10 @@ func (self *Transformer) exprCanControlLoop(node ast.AnalyzedExpression) bool {
 			}
 		}
 
+		if node.DefaultArmAction != nil {
+			return self.exprCanControlLoop(*node.DefaultArmAction)
+		}
+
 		return false
 	case ast.TryExpressionKind:
 		node := node.(ast.AnalyzedTryExpression)
